@@ -269,6 +269,14 @@ impl Send {
         // on idle streams and §6.4 says RST_STREAM on idle is a PROTOCOL_ERROR.
         // Keep the queued HEADERS so the stream opens, then send the reset
         // immediately after.
+        #[cfg(feature = "verif")]
+        if stream.is_pending_open {
+            crate::verif::event(crate::verif::Ev::Note {
+                site: "reset-while-pending-open",
+                id: stream.id.into(),
+            });
+        }
+
         if !stream.is_pending_open {
             // Otherwise, drop any buffered DATA/HEADERS and only send the
             // reset.
